@@ -28,6 +28,7 @@ print('OS-request frames recorded:', len(eff))
 # impl / derive inventory of every source file that holds a unit (see engine.item_inventory)
 inv = {}
 for f in sorted(set(u['file'] for u in index['units'])):
-    inv[f] = engine.item_inventory(os.path.join(engine.REPO, f))
+    ck = sorted(engine.contracted_impl_keys(index, f))
+    inv[f] = {'contracted': ck, 'items': engine.item_inventory(os.path.join(engine.REPO, f), ck)}
 json.dump(inv, open(os.path.join(engine.VERIF, 'inventory_baseline.json'), 'w'), indent=1, sort_keys=True)
-print('impl/derive inventories recorded:', len(inv), 'files,', sum(len(v) for v in inv.values()), 'entries')
+print('impl/derive inventories recorded:', len(inv), 'files,', sum(len(v['items']) for v in inv.values()), 'entries')
